@@ -9,9 +9,10 @@ VERIF_CHAIN_DELAYS   JSON {"start": {"<chain>": seconds}, "finish": {"<chain>": 
                      after that wait the chain's worker process dies (os._exit) or the chain raises instead of
                      returning - the run is interrupted after some chains completed and before the others did.
 VERIF_CHAIN_LOG      file to which every chain appends "<chain> <event> <monotonic time> <pid>".
-VERIF_WRITE_FAULT    JSON {"at": N, "mode": "kill" | "enospc"}: the N-th byte written through gzip.GzipFile's underlying
-                     file object is the last one that reaches the file; then the process dies (os._exit) or the write
-                     raises OSError(ENOSPC).
+VERIF_WRITE_FAULT    JSON {"at": N, "mode": "kill" | "enospc", "cumulative": bool, "marker": path}: the N-th byte written
+                     through gzip.GzipFile's underlying file object (of each file, or - cumulative - of all files of the
+                     process together) is the last one that reaches the file; then the process dies (os._exit) or the
+                     write raises OSError(ENOSPC).  The marker file is created when the fault fires.
 VERIF_CLOCK_SKEW     JSON {"seed": S, "max": seconds}: every reading of time.perf_counter / perf_counter_ns / process_time /
                      time.time (and so timeit's default timer) is the real reading plus a drift that grows by a seeded
                      random amount in [0, max] per call - clocks stay monotone but every measured interval is perturbed,
@@ -114,13 +115,20 @@ if os.environ.get("PHYCLONE_VERIF") == "1":
         _f = json.loads(_fault)
 
         class _FaultyFile(object):
+            _before = [0]  # bytes that reached earlier files of this process (cumulative mode)
+
             def __init__(self, raw):
                 self._raw = raw
                 self._n = raw.tell()  # the gzip header is written by GzipFile.__init__ before this wrapper exists
+                self._base = _FaultyFile._before[0] if _f.get("cumulative") else 0
+                if _f.get("cumulative"):
+                    _FaultyFile._before[0] += self._n
 
             def write(self, b):
                 b = bytes(b)
-                room = int(_f["at"]) - self._n
+                room = int(_f["at"]) - self._base - self._n
+                if _f.get("cumulative") and len(b) <= room:
+                    _FaultyFile._before[0] += len(b)
                 if len(b) <= room:
                     self._n += len(b)
                     return self._raw.write(b)
@@ -128,8 +136,11 @@ if os.environ.get("PHYCLONE_VERIF") == "1":
                     self._raw.write(b[:room])
                     self._n += room
                 self._raw.flush()
-                if self._n > int(_f["at"]):
-                    self._raw.truncate(int(_f["at"]))  # a cut inside the header
+                if _f.get("marker"):
+                    with open(_f["marker"], "w") as _mk:
+                        _mk.write("fault injected after %d bytes of this file\n" % self._n)
+                if self._n > int(_f["at"]) - self._base:
+                    self._raw.truncate(max(0, int(_f["at"]) - self._base))  # a cut inside the header
                 try:
                     os.fsync(self._raw.fileno())
                 except Exception:
